@@ -267,6 +267,10 @@ def cases(draw, tier="quick"):
         case["top_p"] = draw(st.sampled_from(TOP_P))
     if envn in FIXED_LEN and key != "ptrnet" and draw(st.integers(0, 2)) == 0:
         case["stepmask"] = draw(st.lists(st.booleans(), min_size=4, max_size=24))
+    if key != "ptrnet" and draw(st.integers(0, 2)) == 0:
+        # the evaluate call of the round trip also carries a decode_type (a caller forwarding one set of decoding kwargs
+        # to rollout and re-evaluation): given actions are evaluated whatever decode type is named
+        case["eval_dt"] = draw(st.sampled_from(["sampling", "greedy", "multistart_sampling"]))
     if key == "ptrnet":
         if draw(st.booleans()):  # constructor options of PointerNetworkPolicy (its call ignores temperature / tanh kwargs)
             case["opts"] = {"ptr_tanh": draw(st.sampled_from([0.0, 5.0, 10.0])), "ptr_mask_inner": draw(st.booleans())}
@@ -810,6 +814,9 @@ def _run(case, ctx, env, inst, td0, policy, cfg, kw, tkw, slice_, tol, Tm, C, st
         # than the slowest discarded start; the trailing steps of the generating call are judged by Oracle 1 only
         ekw["actions"] = A[:, :Te].clone()
         ekw["max_steps"] = Te  # the loop breaks once step > max_steps: exactly Te steps are allowed
+        if case.get("eval_dt"):
+            ekw["decode_type"] = case["eval_dt"]
+            ctx.event(f"evaluate_with_decode_type:{case['eval_dt']}")
         with torch.no_grad():
             out2 = ctx.guard(policy, td_eval, env_arg, what=f"policy_evaluate|{slice_}", **ekw)
         ll2 = out2["log_likelihood"]
